@@ -121,6 +121,7 @@ Lemma relay_branch_circ n src cid i Y au ce o q :
 Proof.
   intros Q. unfold on_created. rewrite Q.
   match goal with |- context [aget (q_from q) ?l] => destruct (aget (q_from q) l) end; auto.
+  match goal with |- context [if ?b then _ else _] => destruct b end; auto.
 Qed.
 
 Definition hop_step n m (k : Z) n' : Prop :=
